@@ -204,3 +204,210 @@ def defaulted_getattr(ctx, rule, scope=('lib_trainer/', 'lib_guesser/', 'lib_sco
                             'evaluates to (a misspelt name hidden by the default)' % name, None, c, firm=True)
     if ok:
         ctx.ok(rule, 'repository', 'every getattr(x, <name>, default) (%d sites) names an attribute that some class defines' % nsites)
+
+
+def unpack_order(ctx, rule, scope=('lib_trainer/', 'lib_guesser/', 'lib_scorer/', 'lib_princeling/', 'pcfg_guesser.py', 'trainer.py',
+                                   'password_scorer.py', 'prince_ling.py', 'edit_rules.py'), floor=8):
+    """A call `a, b = f(..)` of a repository function whose every return is a tuple of plain names: when the names the caller
+    unpacks into are the names the callee returns, they come in the callee's order.  (Seed C05-da: `found_providers, found_emails =
+    email_detection(..)` while email_detection returns `email_list, provider_list` - the two counters swap contents.)  Names are
+    matched by their parts (email ~ emails); decided only where every target matches exactly one returned name."""
+    returns = {}        # simple name -> list of name tuples, or None when some return is not a tuple of names
+    for q, fn in ctx.repo.all_funcs():
+        rel, _, lname = q.partition('::')
+        if not rel.startswith(scope):
+            continue
+        name = lname.rpartition('.')[2]
+        rets = [r for r in walk_local(fn) if isinstance(r, ast.Return) and r.value is not None]
+        tuples = []
+        okf = bool(rets)
+        for r in rets:
+            if isinstance(r.value, ast.Tuple) and all(isinstance(e, ast.Name) for e in r.value.elts):
+                tuples.append(tuple(e.id for e in r.value.elts))
+            else:
+                okf = False
+        returns.setdefault(name, []).append(tuples if okf else None)
+    n = 0
+    ok = True
+    for q, fn in ctx.repo.all_funcs():
+        rel = q.partition('::')[0]
+        if not rel.startswith(scope):
+            continue
+        for st in walk_local(fn):
+            if not (isinstance(st, ast.Assign) and len(st.targets) == 1 and isinstance(st.targets[0], ast.Tuple)
+                    and all(isinstance(e, ast.Name) for e in st.targets[0].elts) and isinstance(st.value, ast.Call)):
+                continue
+            f = st.value.func
+            nm = f.attr if isinstance(f, ast.Attribute) else (f.id if isinstance(f, ast.Name) else None)
+            cands = returns.get(nm)
+            if not cands or len(cands) != 1 or cands[0] is None:
+                continue
+            tg = tuple(e.id for e in st.targets[0].elts)
+
+            def toks(name):
+                out = set()
+                for t in name.lower().split('_'):
+                    if t in ('found', 'list', 'new', 'cur', 'the', 'temp', 'tmp', ''):
+                        continue
+                    out.add(t[:-1] if t.endswith('s') and len(t) > 3 else t)
+                return out
+
+            def matching(ret):
+                """position in `ret` that each target name denotes (by shared name parts), or None when that is not unambiguous"""
+                perm = []
+                for a in tg:
+                    sc = [len(toks(a) & toks(b)) for b in ret]
+                    best = max(sc)
+                    if best == 0 or sc.count(best) != 1:
+                        return None
+                    perm.append(sc.index(best))
+                return perm if sorted(perm) == list(range(len(tg))) else None
+            for ret in cands[0]:
+                perm = matching(ret) if len(ret) == len(tg) and len(set(tg)) == len(tg) else None
+                if perm is not None:
+                    n += 1
+                    if perm != list(range(len(tg))):
+                        ok = False
+                        ctx.bad(rule, q, '%s = %s(..) while %s returns %s' % (', '.join(tg), nm, nm, ', '.join(ret)),
+                                'the results are unpacked in another order than they are returned: each name now holds the other value',
+                                None, st, firm=True)
+    if ok:
+        ctx.ok(rule, 'repository', 'every tuple result unpacked into the names it is returned under comes in the same order (%d sites)' % n)
+
+
+def decode_error_policy(ctx, rule, scope=('lib_guesser/', 'lib_scorer/', 'lib_trainer/trainer_file_input.py'), floor=5):
+    """How undecodable bytes are treated when a text file is read.  Two disciplines exist in this code base and nothing else is sound:
+
+      strict (the default)   the file must decode exactly - the OMEN model files, config files: an undecodable byte aborts the load
+      surrogateescape        + a re-encode check of every line in the same function (`line.encode(enc)` guarded by a handler of
+                             UnicodeEncodeError): the undecodable line is detected, counted and skipped
+
+    'replace' / 'ignore' / 'backslashreplace' silently turn the line into a different string that passes every later check (seed
+    C19-da: the training reader with errors='replace' trains on U+FFFD and no longer counts the encoding error); surrogateescape
+    WITHOUT the re-encode check lets lone surrogates into the model (seed C09-da: _load_ngrams - Markov guesses that cannot be
+    written are then counted against --limit but never printed)."""
+    from ..effects import open_mode as open_mode_of
+    n = 0
+    ok = True
+    for q, fn in ctx.repo.all_funcs():
+        rel = q.partition('::')[0]
+        if not rel.startswith(scope):
+            continue
+        recheck = any(isinstance(h, ast.ExceptHandler) and h.type is not None and 'UnicodeEncodeError' in U(h.type) for h in ast.walk(fn)) \
+            and any(isinstance(c, ast.Call) and isinstance(c.func, ast.Attribute) and c.func.attr == 'encode' for c in ast.walk(fn))
+        # the reader class: the check lives in read_password, the open in __init__
+        if q.endswith('TrainerFileInput.__init__'):
+            rp = ctx.repo.modules[rel].funcs.get('TrainerFileInput.read_password')
+            recheck = rp is not None and any(isinstance(h, ast.ExceptHandler) and h.type is not None and 'UnicodeEncodeError' in U(h.type)
+                                             for h in ast.walk(rp))
+        for c in calls_in(fn):
+            m = open_mode_of(c)
+            if m is None or 'b' in m or not ('r' in m or m == ''):
+                continue
+            n += 1
+            ctx.stats['functions'].add(q)
+            err = None
+            for k in c.keywords:
+                if k.arg == 'errors':
+                    err = const(k.value) if const(k.value) is not NOCONST else U(k.value)
+            pos = 3 if call_name(c) == 'codecs.open' else 4
+            if err is None and len(c.args) > pos:
+                err = const(c.args[pos]) if const(c.args[pos]) is not NOCONST else U(c.args[pos])
+            policy = err or 'strict'
+            if policy == 'strict':
+                continue
+            if policy == 'surrogateescape' and recheck:
+                continue
+            ok = False
+            if policy == 'surrogateescape':
+                ctx.bad(rule, q, "errors='surrogateescape' without a re-encode check: " + U(c)[:70],
+                        'undecodable bytes enter the loaded data as lone surrogates and nothing in this function detects them', None, c, firm=True)
+            else:
+                ctx.bad(rule, q, 'errors=%r: %s' % (policy, U(c)[:70]),
+                        'undecodable bytes are silently rewritten: the line becomes a different string that passes every later check', None, c, firm=True)
+    if ctx.floor(rule, 'readers', n, floor, 'text-mode read sites') and ok:
+        ctx.ok(rule, 'readers', 'all %d text-mode read sites decode strictly, or with surrogateescape plus a re-encode check' % n)
+
+
+def writers_truncate(ctx, rule, scope=('lib_guesser/', 'lib_trainer/', 'lib_scorer/', 'lib_princeling/', 'pcfg_guesser.py', 'trainer.py',
+                                       'password_scorer.py', 'prince_ling.py', 'edit_rules.py'), floor=8):
+    """Every file these tools write holds ONE complete state (a ruleset file, a session file, a word list): it is opened with a
+    truncating mode ('w' / 'wb').  Opened for appending, a second save lands behind the first and every reader - which reads from
+    the start - sees the stale state (seeds C10-da / C15-da: the .omn session file opened 'ab'; C17-da: the -o word list)."""
+    from ..effects import open_mode
+    n = 0
+    ok = True
+    for q, fn in ctx.repo.all_funcs():
+        rel = q.partition('::')[0]
+        if not rel.startswith(scope):
+            continue
+        for c in calls_in(fn):
+            m = open_mode(c)
+            if m is None or m == '?' or not any(ch in m for ch in 'wax+'):
+                continue
+            n += 1
+            ctx.stats['functions'].add(q)
+            if 'w' not in m or '+' in m:
+                ok = False
+                ctx.bad(rule, q, 'file opened with mode %r: %s' % (m, U(c)[:70]),
+                        'the file is not truncated: what an earlier save left in it stays in front of (or mixed with) the new state, and '
+                        'readers take the stale part for the current one', None, c, firm=True)
+    if ctx.floor(rule, 'writers', n, floor, 'write-mode open sites') and ok:
+        ctx.ok(rule, 'writers', 'all %d files the tools write are opened truncating' % n)
+
+
+def float_text_exact(ctx, rule, scope=('lib_trainer/', 'lib_guesser/priority_queue.py', 'lib_guesser/cracking_session.py', 'pcfg_guesser.py'), floor=6):
+    """Numbers reach the files as str(x) / repr(x), which round-trip exactly; a fixed number of digits (format(x, '.12f'), '%.10f' % x,
+    f'{x:.6e}', round(x, n)) does not: probabilities that differ collapse to the same text (and are then MERGED by the loader,
+    which groups equal probabilities), small ones become 0.0.  (Seed C18-da: pcfg_omen_prob.txt written with format(p, '.12f');
+    C01-da: the saved queue position written with f'{x:.15g}'.)  Checked on every argument of a .write(..) / config .set(..) call
+    in the writers."""
+    n = 0
+    ok = True
+
+    def lossy(e):
+        for x in ast.walk(e):
+            if isinstance(x, ast.Call) and isinstance(x.func, ast.Name) and x.func.id == 'format' and len(x.args) == 2 \
+                    and isinstance(const(x.args[1]), str) and any(ch in const(x.args[1]) for ch in 'feEgG.%'):
+                return U(x)
+            if isinstance(x, ast.Call) and isinstance(x.func, ast.Name) and x.func.id == 'round' and len(x.args) == 2:
+                return U(x)
+            if isinstance(x, ast.FormattedValue) and x.format_spec is not None:
+                spec = ''.join(v.value for v in x.format_spec.values if isinstance(v, ast.Constant) and isinstance(v.value, str))
+                if any(ch in spec for ch in 'feEgG.%'):
+                    return '{%s:%s}' % (U(x.value), spec)
+            if isinstance(x, ast.BinOp) and isinstance(x.op, ast.Mod) and isinstance(const(x.left), str):
+                import re as _re
+                if _re.search(r'%[-+ 0#]*\d*(\.\d+)?[feEgG]', const(x.left)):
+                    return U(x)[:60]
+            if isinstance(x, ast.Call) and isinstance(x.func, ast.Attribute) and x.func.attr == 'format' and isinstance(const(x.func.value), str):
+                import re as _re
+                if _re.search(r'\{[^{}]*:[^{}]*[feEgG.%][^{}]*\}', const(x.func.value)):
+                    return U(x)[:60]
+        return None
+    for q, fn in ctx.repo.all_funcs():
+        rel = q.partition('::')[0]
+        if not rel.startswith(scope):
+            continue
+        for c in calls_in(fn):
+            if not (isinstance(c.func, ast.Attribute) and c.func.attr in ('write', 'set', 'writelines')):
+                continue
+            n += 1
+            ctx.stats['functions'].add(q)
+            for a in c.args:
+                hit = lossy(expand_local(fn, a))
+                if hit:
+                    ok = False
+                    ctx.bad(rule, q, 'number written with a fixed precision: ' + hit[:70],
+                            'the text no longer round-trips: different probabilities collapse to one text (the loader then merges them into '
+                            'one group), tiny ones become 0', None, c, firm=True)
+    if ctx.floor(rule, 'writers', n, floor, 'write / set call sites in the writers') and ok:
+        ctx.ok(rule, 'writers', 'none of the %d write sites formats a number with a fixed precision' % n)
+
+
+def expand_local(fn, e):
+    from ..core import expand, stores_in
+    try:
+        return expand(fn, e, stores_in(fn), depth=2)
+    except Exception:       # noqa: BLE001
+        return e
